@@ -25,10 +25,11 @@ class FormatError(Exception):
 # =====================================================================================
 # lines
 # =====================================================================================
-def file_lines(text):
-    """lines as a consumer of a text file sees them: broken at \\n, \\r\\n and \\r.
+def file_lines(text, universal=False):
+    """lines of a text: broken at \\n; with universal=True (a text FILE, as any text-mode
+    consumer including cnfgen's own reader sees it) also at \\r\\n and \\r.
     returns (lines, terminated) ; terminated = the last line ends with a line break"""
-    parts = re.split('\r\n|\n|\r', text)
+    parts = re.split('\r\n|\n|\r', text) if universal else text.split('\n')
     terminated = parts[-1] == ''
     if terminated:
         parts = parts[:-1]
@@ -54,14 +55,14 @@ def _to_int(t):
     return -v if neg else v
 
 
-def dimacs_writer_form(text):
+def dimacs_writer_form(text, universal=False):
     """the text must be:  comment lines (first character 'c') anywhere, exactly one line
     'p cnf N M', after it lines 'l1 l2 ... lk 0' (one clause per line, 1<=|li|<=N),
     exactly M of them, every line terminated.
     returns dict(n, m, clauses, comments, lines)"""
     if text == '':
         raise FormatError('empty', 'no text')
-    lines, terminated = file_lines(text)
+    lines, terminated = file_lines(text, universal)
     if not terminated:
         raise FormatError('unterminated', 'last line has no newline')
     n = m = None
@@ -187,14 +188,14 @@ _OPB_COEF = re.compile(r'[+-]?[0-9]+\Z')
 _OPB_LIT = re.compile(r'(~?)x([1-9][0-9]*)\Z')
 
 
-def opb_read(text):
+def opb_read(text, universal=False):
     """strict OPB reader.  First line '* #variable= N #constraint= M'; comment lines start
     with '*'; every other line is a constraint  '<coef> <lit> ... (>=|=) <degree>[ ;]'
     with <lit> = xK or ~xK, 1<=K<=N; exactly M of them; every line terminated.
     returns dict(n, m, constraints=[[(c,l),...,op,degree]], comments) with op in '>=','=='"""
     if text == '':
         raise FormatError('empty', 'no text')
-    lines, terminated = file_lines(text)
+    lines, terminated = file_lines(text, universal)
     if not terminated:
         raise FormatError('unterminated', 'last line has no newline')
     mo = _OPB_FIRST.match(lines[0])
